@@ -14,6 +14,7 @@ mod c04;
 mod c06;
 mod scen;
 mod c11;
+mod c12;
 mod c13;
 mod c15;
 mod c16;
@@ -56,6 +57,7 @@ fn main() {
         "C04" => c04::run(&args),
         "C06" => c06::run(&args),
         "C11" => c11::run(&args),
+        "C12" => c12::run(&args),
         "C13" => c13::run(&args),
         "C15" => c15::run(&args),
         "C16" => c16::run(&args),
@@ -94,6 +96,7 @@ fn replay(path: &str) -> i32 {
         "C04" => c04::replay(r),
         "C06" => c06::replay(r),
         "C11" => c11::replay(r),
+        "C12" => c12::replay(r),
         "C13" => c13::replay(r),
         "C15" => c15::replay(r),
         "C16" => c16::replay(r),
